@@ -1,7 +1,7 @@
 // unit compile_min — Verus. Minimal-assumption variant of compile_driver: the planner
 // get_file_system_operations is extracted WITHOUT any contract (so a change of its
 // signature or behaviour cannot block this unit), and only the obligations of `compile`
-// that do not need it are stated: C17.O-2 and C19.O-1.
+// that do not need it are stated: C17.O-2 and C18+C19.O-1.
 // (original header follows) unit compile_driver — Verus. Real bodies of batch_compile::compile and
 // write_artifacts::get_file_system_operations (extracted on every run) against assumed
 // contracts for the artifact generator, FileSystemState (verified separately in unit
@@ -130,7 +130,7 @@ pub struct Instant { p: core::marker::PhantomData<u8> }
         old(state).db.gen_result() is Err ==> r is Err && final(state).file_system_state == old(state).file_system_state, //@O C17.O-2m_failed_generation_leaves_state_untouched
         // C19: a write that failed part-way must not leave a remembered state that claims
         // the directory is up to date; the next compile has to start from scratch
-        old(state).db.gen_result() is Ok && r is Err ==> final(state).file_system_state is None, //@O C19.O-1m_failed_write_forgets_directory_state
+        old(state).db.gen_result() is Ok && r is Err ==> final(state).file_system_state is None, //@O C18+C19.O-1m_failed_write_forgets_directory_state
         // C17 (contrapositive): once the operations were applied successfully the compile does
         // not report an error any more — an Err is due to generation or to the write itself
         old(state).db.gen_result() is Ok && r is Err ==>
